@@ -220,3 +220,12 @@ impl DropGuard {
     pub fn new_() -> DropGuard { DropGuard { } }
     pub fn disarm(self) { }
 }
+
+// num_cpus::get_physical(): some small positive number (trusted)
+pub mod num_cpus {
+    use super::*;
+    #[verifier::external_body]
+    pub fn get_physical() -> (r: usize)
+        ensures 1 <= r <= 65536
+    { unimplemented!() }
+}
